@@ -100,6 +100,8 @@ def run(ctx: Ctx):
            f"the accumulators are allocated as {allocs}: each of count / sum / sumsq must be double precision (an accumulator left at the default "
            f"single precision silently rounds every batch's contribution, and the variance sumsq / count - mean^2 cancels catastrophically for "
            f"data with a large offset)", rel, acc.line, sample=allocs)
+    _norm_table(ctx)
+    _deltas_table(ctx)
     mvn_decided = _mvn_table(ctx)  # (by value; the spelling rules below decide only when the code is outside the interpreted fragment)
     col.ob("G12", "S1", f"{W('accumulate')}::terms", mvn_decided or terms == {"count": f"{LAY}.shape[1]", "sum": f"{LAY}.sum(1)", "sumsq": f"{LAY}.square().sum(1)"},
            f"the accumulated terms are {terms} over the layout `{layout}`; expected the number of frames, the sum and the "
@@ -368,6 +370,133 @@ def _delta_dims(ctx: Ctx):
                    f"resolved / range-checked against {bad}: a negative `{pname}` lands on a different axis than the "
                    f"same position counted from the left", rel, f.line, sample=[u(m) for m in mods])
     col.floor("delta_dim_obligations", n_ok, 4)
+
+
+def _deltas_table(ctx: Ctx):
+    """S4 by value: `feat_deltas` interpreted over exact values (sa/interp.py + sa/teval.py; `pad` on the last axis and `conv1d` are
+    leaves computed exactly, the filters are handed in) for a (2, 3, 4) tensor, EVERY time axis (positive and negative), every target
+    axis, stacked and concatenated: the order-o block is the o-th regression of the input along the time axis (replicated edges), laid
+    out along the requested axis - `stack(blocks, dim)`, or `cat(blocks, dim)` when concatenating."""
+    import numpy as np
+    from fractions import Fraction as Fr
+    from sa.interp import Interp
+    from sa.inteval import NotEvaluable
+    from sa.teval import frac_array
+    col, pkg = ctx.col, ctx.pkg
+    f = pkg.func(f"{MOD}::feat_deltas")
+    rel = f.module.relname
+    names = [p_.name for p_ in f.params]
+    x = np.arange(24).reshape(2, 3, 4) ** 2 % 17
+    filters = [[Fr(0), Fr(1), Fr(0)], [Fr(-1, 2), Fr(0), Fr(1, 2)]]  # order 1, width 1
+
+    def blocks(time_ax):
+        xs = np.moveaxis(frac_array(x.tolist()), time_ax, -1)
+        pad = np.concatenate([xs[..., :1], xs, xs[..., -1:]], -1)
+        out = []
+        for filt in filters:
+            o = np.zeros(xs.shape, dtype=object)
+            for k_, c_ in enumerate(filt):
+                o = o + pad[..., k_:k_ + xs.shape[-1]] * c_
+            out.append(np.moveaxis(o, -1, time_ax))
+        return out
+    bad, n = None, 0
+    try:
+        for time_dim in range(-3, 3):
+            for concat in (True, False):
+                D = 3 if concat else 4
+                for dim in range(-D, D):
+                    holder = {}
+
+                    def leaf(e, env):
+                        it = holder["it"]
+                        if isinstance(e, ast.Call):
+                            cn = call_name(e)
+                            if cn.endswith("functional.pad") or cn == "F.pad":
+                                a = np.asarray(it.eval(e.args[0], env), dtype=object)
+                                p_ = it.eval(e.args[1], env)
+                                l_, r_ = int(p_[0]), int(p_[1])
+                                return np.concatenate([np.repeat(a[..., :1], l_, -1), a, np.repeat(a[..., -1:], r_, -1)], -1)
+                            if cn.endswith("conv1d"):
+                                a, w = np.asarray(it.eval(e.args[0], env), dtype=object), np.asarray(it.eval(e.args[1], env), dtype=object)
+                                M, _, L = a.shape
+                                O, _, K = w.shape
+                                out = np.zeros((M, O, L - K + 1), dtype=object)
+                                for o_ in range(O):
+                                    for k_ in range(K):
+                                        out[:, o_, :] = out[:, o_, :] + a[:, 0, k_:k_ + L - K + 1] * w[o_, 0, k_]
+                                return out
+                            if cn == "movedim" and len(e.args) == 3:
+                                return np.moveaxis(it.eval(e.args[0], env), int(it.eval(e.args[1], env)), int(it.eval(e.args[2], env)))
+                        return None
+                    it = Interp(leaf=leaf, tensors=True)
+                    holder["it"] = it
+                    env = dict(zip(names, (frac_array(x.tolist()), dim, time_dim, concat, 1, 1, "replicate", Fr(0), frac_array(filters))))
+                    kind, got = it.run(f.node, env)
+                    n += 1
+                    bl = blocks(time_dim % 3)
+                    want = np.concatenate(bl, dim % 3) if concat else np.stack(bl, dim % 4)
+                    ok = kind == "return" and hasattr(got, "shape") and got.shape == want.shape and np.asarray(got, dtype=object).tolist() == want.tolist()
+                    if not ok and bad is None:
+                        bad = (time_dim, dim, concat, tuple(got.shape) if kind == "return" and hasattr(got, "shape") else f"{kind} {got}", want.shape)
+    except NotEvaluable:
+        return
+    col.count("deltas_table_rows", n)
+    col.ob("G12", "S4", f"{rel}::feat_deltas::layout-table", bad is None,
+           (f"time_dim={bad[0]}, dim={bad[1]}, concatenate={bad[2]} on a (2, 3, 4) input: feat_deltas returns a tensor of shape {bad[3]} that differs from "
+            f"the regressions along the time axis {'concatenated' if bad[2] else 'stacked'} along dim (shape {bad[4]})") if bad else "", rel, f.line, sample=dict(rows=n))
+
+
+def _norm_table(ctx: Ctx):
+    """S1b by value: `mean_var_norm` interpreted over exact values (sa/interp.py + sa/teval.py): the result is (x - mean) / max(std, eps)
+    along the feature axis - with stored statistics (a stored deviation BELOW eps, zero included, is raised to eps: a coefficient that was
+    constant over the accumulated frames gives 0, not NaN), with the input's own population statistics when none are stored (frames
+    chosen so that the deviations are rational), for the feature axis first, last and negative."""
+    import numpy as np
+    from fractions import Fraction as Fr
+    from sa.interp import Interp
+    from sa.inteval import NotEvaluable
+    from sa.teval import frac_array
+    col, pkg = ctx.col, ctx.pkg
+    f = pkg.func(f"{MOD}::mean_var_norm")
+    rel = f.module.relname
+    names = [p_.name for p_ in f.params]
+    frames = np.array([[1, 0, 7], [3, 4, 7]])  # 2 frames x 3 coefficients: population deviations 1, 2, 0
+    eps = Fr(1, 20)
+    bad, n = None, 0
+    try:
+        for dim, x in ((1, frames), (-1, frames), (0, frames.T), (-2, frames.T)):
+            ax = dim % 2
+            for tag, mean, std in (("stored", [Fr(1), Fr(2), Fr(3)], [Fr(2), Fr(1, 1000), Fr(0)]), ("own", None, None), ("stored mean only", [Fr(1), Fr(2), Fr(3)], None)):
+                env = dict(zip(names, (frac_array(x.tolist()), dim, frac_array(mean) if mean is not None else None, frac_array(std) if std is not None else None, eps)))
+                kind, got = Interp(tensors=True).run(f.node, env)
+                n += 1
+                xs = np.moveaxis(frac_array(x.tolist()), ax, -1)  # (frames, coefficients)
+                mu = mean if mean is not None else [sum(xs[:, k_].tolist(), Fr(0)) / xs.shape[0] for k_ in range(xs.shape[1])]
+                if std is not None:
+                    sd = std
+                else:
+                    sd = []
+                    for k_ in range(xs.shape[1]):
+                        v_ = sum(((z_ - mu[k_]) ** 2 for z_ in xs[:, k_].tolist()), Fr(0)) / xs.shape[0]
+                        r_ = Fr(int(v_ ** Fr(1, 2))) if v_ >= 0 and Fr(int(float(v_) ** 0.5)) ** 2 == v_ else None
+                        sd.append(r_)
+                if any(s_ is None for s_ in sd):
+                    continue  # (an irrational deviation: not a row of this table)
+                want = np.empty(xs.shape, dtype=object)
+                for i_ in range(xs.shape[0]):
+                    for k_ in range(xs.shape[1]):
+                        want[i_, k_] = (xs[i_, k_] - mu[k_]) / max(sd[k_], eps)
+                want = np.moveaxis(want, -1, ax)
+                ok = kind == "return" and hasattr(got, "shape") and got.shape == want.shape and np.asarray(got, dtype=object).tolist() == want.tolist()
+                if not ok and bad is None:
+                    bad = (dim, tag, [[str(v_) for v_ in r_] for r_ in np.asarray(got, dtype=object).tolist()] if kind == "return" and hasattr(got, "shape") else f"{kind} {got}",
+                           [[str(v_) for v_ in r_] for r_ in want.tolist()])
+    except NotEvaluable:
+        return
+    col.count("norm_table_rows", n)
+    col.ob("G12", "S1", f"{rel}::mean_var_norm::normalisation-table", bad is None,
+           (f"feature axis {bad[0]}, {bad[1]} statistics (eps = {eps}): mean_var_norm returns {str(bad[2])[:200]}; (x - mean) / max(std, eps) is {str(bad[3])[:200]}") if bad else "",
+           rel, f.line, sample=dict(rows=n))
 
 
 def _mvn_table(ctx: Ctx) -> bool:
